@@ -23,8 +23,12 @@ CONSTANTS
   JoinWaitsExit = TRUE
   RunErrsOnNonZero = TRUE
   BlockOnExact = TRUE
+  SelfSend = FALSE
+  SelfSendViaChannel = TRUE
+  NegCodeIsErr = TRUE
+  CtrlBatch = 0
 SPECIFICATION Spec
 VIEW View
 SYMMETRY ThrSym
-INVARIANTS C09_FirstCodeWins C09_AllRegisteredStop C09_RunErrOnNonZero C09_EarlyStoppedDeregistered
+INVARIANTS C09_FirstCodeWins
 CHECK_DEADLOCK FALSE
